@@ -240,7 +240,4 @@ def search(ctx):
 
 
 def replay(path):
-    r = json.loads(open(path).read())
-    print(json.dumps(r.get("what") or r.get("no_longer_checks"))[:3000])
-    print("replay: re-run `VERIF_SEED=%s harness/vcheck.py C10 --tier %s` (cases are regenerated from the seed)" % (r.get("seed"), r.get("tier")))
-    return 1
+    return core.replay_by_seed("C10", path)
